@@ -1,9 +1,9 @@
 package checks
 
 import (
-	"strings"
 	"fmt"
 	"sort"
+	"strings"
 
 	"github.com/ja7ad/otp"
 	"github.com/ja7ad/otp/verifharness/ev"
@@ -49,7 +49,7 @@ func ocraVal(c c06Case, pairMode bool) (obs, bad string) {
 		_, key := ref.B32Classify(c.Secret)
 		for _, e := range []error{verr, gerr} {
 			if e != nil {
-				if l := leaks(e.Error(), c.Secret, key, []string{gen}); l != "" {
+				if l := leaks(errText(e), c.Secret, key, []string{gen}); l != "" {
 					return obs, "error text discloses " + l
 				}
 			}
@@ -191,24 +191,30 @@ func c06(r *ev.Run, pairMode bool) {
 	names := otp.ListSuites()
 	sort.Strings(names)
 	ev.Par(len(jobs)+len(names), func(i int) {
+		var cur c06Case
+		defer func() {
+			// a panic of the library anywhere in this job is a finding, not a crash of the check
+			if pv := recover(); pv != nil {
+				r.Fail(scen, fmt.Sprintf("job %d via=%s %s: panicked: %v", i, cur.Via, cur.Shape.sig(), pv), cur, "no panic", fmt.Sprint(pv))
+			}
+		}()
 		var sh shape
 		via := "config"
 		if i < len(jobs) {
 			sh = jobs[i]
-			if i%2 == 1 {
-				via = "newsuite"
-			}
+			via = []string{"config", "newsuite", "config-ptr", "newsuite-ptr"}[i%4]
 		} else {
 			rs, ok := ref.ParseSuite(names[i-len(jobs)])
 			if !ok {
 				return
 			}
 			sh = shapeOfRef(rs)
-			via = "raw"
+			via = []string{"raw", "raw-ptr"}[i%2]
 		}
 		key := ocraKeys[i%len(ocraKeys)]
 		sec := spellings(key)[i%4]
 		in := junk(sh, admissible(sh, i), i)
+		cur = c06Case{via, sh, sec, in, "000000"}
 		su, err := mkSuite(via, sh)
 		if err != nil {
 			r.Fail(scen, "suite-construction "+sh.sig(), sh, "a suite", errStr(err))
@@ -223,7 +229,7 @@ func c06(r *ev.Run, pairMode bool) {
 		var around []string
 		nb := func(in2 oin, sh2 shape) {
 			su2, e := mkSuite(via, sh2)
-			if via == "raw" {
+			if strings.HasPrefix(via, "raw") {
 				su2, e = sh2.lib(), nil
 			}
 			if e == nil {
